@@ -278,7 +278,17 @@ pub fn gen_stack(r: &mut Rng, hostile: bool) -> Vec<u8> {
 
 /// Pushes a value with a recognisable "type" onto the stack. Net +1.
 fn typed_value(a: &mut Asm, r: &mut Rng) {
-    match r.below(16) {
+    match r.below(19) {
+        16 | 17 => {
+            // the current value of a (small) slot: creates evidence cycles
+            // between slots, arrays and mappings
+            a.push_u(r.below(6) as u128).op(op::SLOAD);
+        }
+        18 => {
+            // an element of the array at a small slot
+            let s = r.below(4);
+            a.push(keccak_word(U256::from(s))).push_u(r.below(3) as u128).op(op::ADD).op(op::SLOAD);
+        }
         0 => {
             a.op(op::CALLER);
         }
@@ -347,6 +357,10 @@ fn mapping_hash(a: &mut Asm, r: &mut Rng) {
     typed_value(a, r);
     a.op(op::PUSH0).op(op::MSTORE);
     a.push_u(0x40).op(op::PUSH0).op(op::SHA3);
+    if r.chance(1, 4) {
+        // a field of a struct-valued mapping: keccak(key ‖ slot) + n
+        a.push_u(1 + r.below(3) as u128).op(op::ADD);
+    }
 }
 
 /// Stack: [.., slot] -> [.., keccak(slot) + index].
@@ -417,7 +431,13 @@ fn typed_use(a: &mut Asm, r: &mut Rng, scratch_slot: u64) {
             // shifted extract: (v >> k) & mask
             let k = *r.pick(&[8u32, 16, 32, 64, 128, 160, 200]);
             let w = *r.pick(&[8u32, 16, 32, 64, 96]);
-            a.push_u(u128::from(k)).op(op::SHR).push(mask(w)).op(op::AND);
+            if r.chance(1, 3) {
+                // the older compiler idiom: divide by a power of two
+                a.push(U256::ONE << k).swap(1).op(op::DIV);
+            } else {
+                a.push_u(u128::from(k)).op(op::SHR);
+            }
+            a.push(mask(w)).op(op::AND);
             a.push_u(u128::from(scratch_slot)).op(op::SSTORE);
         }
         8 => {
@@ -507,7 +527,12 @@ fn storage_fragment(a: &mut Asm, r: &mut Rng, s: u64, slots: &[u64]) {
             typed_value(a, r);
             a.push(mask(w)).op(op::AND);
             if k > 0 {
-                a.push_u(u128::from(k)).op(op::SHL);
+                if r.chance(1, 3) {
+                    // multiply by a power of two instead of shifting
+                    a.push(U256::ONE << k).op(op::MUL);
+                } else {
+                    a.push_u(u128::from(k)).op(op::SHL);
+                }
             }
             a.op(op::OR);
             a.push_u(u128::from(s)).op(op::SSTORE);
